@@ -201,7 +201,7 @@ bool c16BoxOp(std::vector<std::string> const& t, std::string& out){
 		return true;
 	}
 	if(op != "smo" && op != "killex" && op != "deactvar" && op != "deactex" && op != "shrink" && op != "unshrink" && op != "adddelta"
-		&& op != "label" && op != "select1" && op != "solve" && op != "biasupd") return false;
+		&& op != "label" && op != "select1" && op != "solve" && op != "biasupd" && op != "biassolve") return false;
 	if(!S.prob || !parseInts(t, 1, a)){ out = "bad-op"; return true; }
 	Probe& p = *S.prob;
 	std::string pre, stopOrc;
@@ -252,6 +252,24 @@ bool c16BoxOp(std::vector<std::string> const& t, std::string& out){
 			if(!(p.checkKKT() < stop.minAccuracy)) stopOrc += " !oracle stopped-not-kkt";
 		}else if(prop.type != QpMaxIterationsReached) stopOrc += " !oracle stop-type";
 		if(prop.iterations > stop.maxIterations) stopOrc += " !oracle iterations-exceed-limit";
+	}else if(op == "biassolve" && a.size() == 4){
+		// the real BiasSolver::solve (inner QpSolver runs + Rprop rule on the bias) from the current state, bias starting at 0
+		if(a[2] < 0){ out = "bad-op"; return true; }
+		std::size_t classes = S.nu.width();
+		QpStoppingCondition stop; stop.minAccuracy = shiftVal(a[0], a[1]); stop.maxIterations = (unsigned long long)a[2];
+		QpSolutionProperties prop; prop.type = QpNone;
+		RealVector bias(classes, 0.0);
+		BiasSolver<SynthMatrix> bs(&p);
+		bs.solve(bias, stop, S.nu, a[3] != 0, &prop);
+		std::ostringstream os; os << "bias=[";
+		for(std::size_t c = 0; c != classes; ++c) os << (c ? "," : "") << bits(bias(c));
+		os << "] it=" << prop.iterations << " stop=" << (int)prop.type << " acc=" << bits(prop.accuracy) << " "; pre = os.str();
+		// oracle: with sumToZero the bias stays in the sum-to-zero subspace (up to rounding)
+		if(a[3] != 0){ double sb = 0, sc = 0; for(std::size_t c = 0; c != classes; ++c){ sb += bias(c); sc += std::fabs(bias(c)); }
+			if(std::fabs(sb) > 1e-9 * (1 + sc)) stopOrc += " !oracle bias-not-sum-to-zero"; }
+		if(prop.type == QpAccuracyReached && !(p.checkKKT() <= stop.minAccuracy)) stopOrc += " !oracle bias-stopped-not-kkt";
+		if(p.aV() != S.n * S.P) stopOrc += " !oracle bias-stopped-while-shrunk";
+		S.exact = false;      // (the driver does not run the exact instance through a whole Rprop run)
 	}else if(op == "biasupd"){
 		// the real performBiasUpdate: bias step -> change of the linear part (and of the gradient)
 		std::size_t classes = S.nu.width();
